@@ -1,6 +1,7 @@
 package saml
 
 import (
+	"bytes"
 	"crypto/rand"
 	"io"
 	"time"
@@ -17,6 +18,91 @@ import (
 var canonicalWriteSettings = etree.WriteSettings{
 	CanonicalText:    true,
 	CanonicalAttrVal: true,
+}
+
+// serializeDocument returns doc serialized with canonicalWriteSettings, with
+// every '>' inside an attribute value written as "&gt;" in addition.
+//
+// Canonical attribute escaping leaves '>' alone, but encoding/xml - which the
+// round-trip validator, etree and xml.Unmarshal all use to read a document
+// back - refuses the sequence "]]>" anywhere outside a CDATA section, even
+// inside a quoted attribute value.
+func serializeDocument(doc *etree.Document) ([]byte, error) {
+	doc.WriteSettings = canonicalWriteSettings
+	buf, err := doc.WriteToBytes()
+	if err != nil {
+		return nil, err
+	}
+	return escapeAttrGreaterThan(buf), nil
+}
+
+// escapeAttrGreaterThan replaces '>' by "&gt;" inside the quoted attribute
+// values of the tags in buf. Comments, CDATA sections, processing instructions
+// and directives are copied unchanged.
+func escapeAttrGreaterThan(buf []byte) []byte {
+	if !bytes.Contains(buf, []byte("]]>")) {
+		return buf
+	}
+	const (
+		inText = iota
+		inTag
+		inComment
+		inCData
+		inProcInst
+		inDirective
+	)
+	out := make([]byte, 0, len(buf)+16)
+	state := inText
+	var quote byte
+	for i, c := range buf {
+		switch state {
+		case inText:
+			if c == '<' {
+				switch tail := buf[i:]; {
+				case bytes.HasPrefix(tail, []byte("<!--")):
+					state = inComment
+				case bytes.HasPrefix(tail, []byte("<![CDATA[")):
+					state = inCData
+				case bytes.HasPrefix(tail, []byte("<?")):
+					state = inProcInst
+				case bytes.HasPrefix(tail, []byte("<!")):
+					state = inDirective
+				default:
+					state = inTag
+				}
+			}
+		case inTag:
+			switch {
+			case quote == 0 && (c == '"' || c == '\''):
+				quote = c
+			case quote != 0 && c == quote:
+				quote = 0
+			case quote != 0 && c == '>':
+				out = append(out, "&gt;"...)
+				continue
+			case c == '>':
+				state = inText
+			}
+		case inComment:
+			if c == '>' && bytes.HasSuffix(buf[:i], []byte("--")) {
+				state = inText
+			}
+		case inCData:
+			if c == '>' && bytes.HasSuffix(buf[:i], []byte("]]")) {
+				state = inText
+			}
+		case inProcInst:
+			if c == '>' && bytes.HasSuffix(buf[:i], []byte("?")) {
+				state = inText
+			}
+		case inDirective:
+			if c == '>' {
+				state = inText
+			}
+		}
+		out = append(out, c)
+	}
+	return out
 }
 
 // TimeNow is a function that returns the current time. The default
